@@ -105,6 +105,18 @@ CLAIMS = {
         text='For the ~160 functions reachable from assemble(): no writes to module-level state at call time (stores, mutating methods, aliases, ChainMap first position), no mutable defaults / memo decorators / function attributes, no iteration or materialisation of set-kinded values, '
              'no ambient inputs (time, random, id, hash, environment, unsorted listings; cwd only on the source-string branch), eval with pinned builtins. These are exactly the mechanisms by which a result could depend on earlier calls, call order or the hash seed; absence is a property of the code shape, for all interleavings.',
         note='Trusted: CPython ast; call resolution of bbverif/callgraph.py; determinism of CPython and struct. A fixture with one instance of every rule must fire on each run, otherwise the run ends with ANALYSIS-ERROR.'),
+    'C10': dict(
+        category='other', design='DESIGN.md §4 C10',
+        technique='table agreement (docs grids, size() tables, struct format letters, reference widths); per-path format/sign rule and no-narrowing def-use; codec round-trip rule; path-provenance kinds for include_bytes',
+        text='Documented widths == size() == struct size of the format letter == reference for all nine keywords; on every path the format is "<" + the letter, lower-cased exactly when the tested value is negative, and that same value reaches struct.pack untouched (a mask there would be silent truncation); '
+             'pack passes format and value through; strings are emitted/measured as UTF-8 and escape processing must use a codec whose round trip through unicode_escape is the identity; include_bytes size and content both use the path the include search returned.',
+        note='Trusted: struct refuses out-of-range values for standard sizes (library contract); Latin-1 contract of unicode_escape; CPython ast; bbverif pathwalk/prov.'),
+    'C14': dict(
+        category='other', design='DESIGN.md §4 C14',
+        technique='cwd-sensitivity effect analysis: provenance kinds (Resolved / UserGiven / RawToken) of every filesystem argument reachable from assemble(); splice-order rule on the reader loop; CLI abspath rule',
+        text='Only paths produced by the include search or given by the caller reach open/exists/getsize; os.getcwd() only on the source-string branch; the recursive read passes the resolved path, include=True and unchanged include_dirs; the directory of the including file is searched at every depth; '
+             'included lines are spliced at the include line by extend, others appended once in order; the CLI makes input and -i directories absolute. Independence from the working directory is a property of which values can flow to filesystem calls, for all include trees.',
+        note='Not decided: equality of the resulting binaries (follows from splice order and C16 purity, not re-proved); which directory wins for duplicate names. Trusted: CPython ast, kind rules of bbverif/prov.py.'),
 }
 
 NOT_YET = 'check not built yet (framework under construction)'
